@@ -696,14 +696,108 @@ example :
   · simp only [List.mem_cons, List.not_mem_nil, or_false] at hs
     rcases hs with rfl | rfl <;> rfl
 
+/-! ### superposed members: `‖Uψ‖² = ‖ψ‖²`
+
+For a superposition `∑ₖ cₖ |sₖ⟩` of pairwise distinct (tagged) Fock states the evolved annotated amplitudes
+`∑ₖ cₖ ∏_g perm(U[t_g|s_kg])`, squared, divided by `∏ t_g!` and summed over all annotated outputs, give
+back `∑ₖ |cₖ|² ∏ s_kg!` — orthonormality of the evolved basis states, from the Fock-space composition
+law (`Lemmas/FockComp.lean: pamp_mul_of_inv`) applied to `U† U = 1`, group by group. -/
+
+/-- **the output distribution of a superposed input of a unitary circuit has total probability one**:
+any number of terms, any coefficients (not all zero), equal or unequal photon numbers, any tag
+groups; the basis states of the terms are pairwise distinct (as in a `StateVector`). -/
+theorem probsSV_mass_one {m : ℕ} (U : Matrix (Fin m) (Fin m) GQ) (hU : IsUnitary U)
+    (terms : List Term) (hlen : ∀ t ∈ terms, ∀ s ∈ t.groups, s.length = m)
+    (hnd : (terms.map (·.groups)).Nodup) (hN : svNorm2 terms ≠ 0) :
+    mass (probsSV U terms) = 1 :=
+  probsSV_mass_one_aux U hU.2 terms hlen hnd hN
+
+/-- `Simulator.probs(StateVector)` (`_to_bsd(evolve(sv))`) returns a probability distribution -/
+theorem probsSVcode_mass_one {m : ℕ} (U : Matrix (Fin m) (Fin m) GQ) (hU : IsUnitary U)
+    (terms : List Term) (hlen : ∀ t ∈ terms, ∀ s ∈ t.groups, s.length = m)
+    (hnd : (terms.map (·.groups)).Nodup) (hc : ∃ t ∈ terms, t.coef ≠ 0) :
+    mass (probsSVcode U terms) = 1 := by
+  rw [probsSVcode, memberGeneric_eq_spec]
+  exact probsSV_mass_one U hU terms hlen hnd (svNorm2_ne_zero terms hc)
+
+/-- **mixture_convex for a unitary circuit, superposed members** — the generic path
+`_probs_svd_generic` without trimming: for any kept members (superpositions of pairwise distinct tagged
+Fock states, not the zero vector) and weights summing to one, every outcome gets
+`∑ wᵢ · probsSV(memberᵢ)(outcome)`, the final `res.normalize()` is the identity and the result has total
+probability one.  No normalisation hypothesis on the members. -/
+theorem probs_svd_generic_unitary {m : ℕ} (U : Matrix (Fin m) (Fin m) GQ) (hU : IsUnitary U)
+    (kept : List Member) (hok : ∀ mb ∈ kept, MemberOK m mb) (hw : (kept.map (·.w)).sum = 1) :
+    (∀ t, get (accumAll (kept.map fun mb => (mb.w, memberGeneric U mb))) t
+        = (kept.map fun mb => mb.w * get (probsSV U mb.terms) t).sum) ∧
+    normalize (accumAll (kept.map fun mb => (mb.w, memberGeneric U mb)))
+      = accumAll (kept.map fun mb => (mb.w, memberGeneric U mb)) ∧
+    mass (accumAll (kept.map fun mb => (mb.w, memberGeneric U mb))) = 1 := by
+  have hm : ∀ q ∈ kept.map (fun mb => (mb.w, memberGeneric U mb)), mass q.2 = 1 := by
+    intro q hq
+    obtain ⟨mb, hmb, rfl⟩ := List.mem_map.1 hq
+    show mass (memberGeneric U mb) = 1
+    rw [memberGeneric_eq_spec]
+    exact probsSV_mass_one U hU mb.terms (hok mb hmb).1 (hok mb hmb).2.1 (hok mb hmb).2.2
+  have hw' : ((kept.map fun mb => (mb.w, memberGeneric U mb)).map (·.1)).sum = 1 := by
+    rw [List.map_map]; exact hw
+  refine ⟨fun t => (probs_svd_paths U kept t).1, (mixture_convex _).2 hm hw', ?_⟩
+  rw [accumAll, mass_accumFrom, mass_nil, zero_add, ← hw', List.map_map, List.map_map]
+  congr 1
+  apply List.map_congr_left
+  intro mb hmb
+  simp only [Function.comp_apply]
+  rw [hm _ (List.mem_map.2 ⟨mb, hmb, rfl⟩), mul_one]
+
+/-- the specification mixture `probsSVD` of a unitary circuit is a probability distribution -/
+theorem probsSVD_mass_one {m : ℕ} (U : Matrix (Fin m) (Fin m) GQ) (hU : IsUnitary U)
+    (members : List (ℚ × List Term)) (hok : ∀ p ∈ members, MemberOK m ⟨p.1, p.2⟩)
+    (hw : (members.map (·.1)).sum = 1) : mass (probsSVD U members) = 1 := by
+  unfold probsSVD
+  apply mass_mix_one
+  · intro q hq
+    obtain ⟨p, hp, rfl⟩ := List.mem_map.1 hq
+    exact probsSV_mass_one U hU p.2 (hok p hp).1 (hok p hp).2.1 (hok p hp).2.2
+  · rw [List.map_map]; exact hw
+
+/-- non-vacuity of `probsSV_mass_one` / `probs_svd_generic_unitary`: a superposition of two distinct
+two-tag states with a complex relative phase and bunching (`‖ψ‖² = 2·1 + 1·1 = 3`), through the
+non-symmetric unitary `PM.C02.exU`, in a mixture with a Fock member (`exSV`, `Lemmas/C03Mass.lean`) -/
+theorem exSV_ok : MemberOK 2 ⟨1 / 3, exSV⟩ := by
+  refine ⟨?_, by decide, ?_⟩
+  · intro t ht s hs
+    simp only [exSV, List.mem_cons, List.not_mem_nil, or_false] at ht
+    rcases ht with rfl | rfl <;>
+    · simp only [List.mem_cons, List.not_mem_nil, or_false] at hs
+      rcases hs with rfl | rfl <;> rfl
+  · have : svNorm2 exSV = 3 := by decide +kernel
+    show svNorm2 exSV ≠ 0
+    rw [this]; norm_num
+
+example : mass (probsSV PM.C02.exU exSV) = 1 :=
+  probsSV_mass_one _ exU_isUnitary _ exSV_ok.1 exSV_ok.2.1 exSV_ok.2.2
+
+example : mass (accumAll ([⟨1 / 3, exSV⟩, ⟨2 / 3, [⟨1, [[1, 0], [0, 1]]⟩]⟩].map
+    fun mb => (mb.w, memberGeneric PM.C02.exU mb))) = 1 := by
+  refine (probs_svd_generic_unitary _ exU_isUnitary _ ?_ (by norm_num)).2.2
+  intro mb hmb
+  simp only [List.mem_cons, List.not_mem_nil, or_false] at hmb
+  rcases hmb with rfl | rfl
+  · exact exSV_ok
+  · refine ⟨?_, by decide, ?_⟩
+    · intro t ht s hs
+      simp only [List.mem_cons, List.not_mem_nil, or_false] at ht
+      subst ht
+      simp only [List.mem_cons, List.not_mem_nil, or_false] at hs
+      rcases hs with rfl | rfl <;> rfl
+    · have : svNorm2 [⟨1, [[1, 0], [0, 1]]⟩] = 1 := by decide +kernel
+      show svNorm2 [⟨1, [[1, 0], [0, 1]]⟩] ≠ 0
+      rw [this]; norm_num
+
 /-!
 Not proved here (validated by the correspondence on every run):
 * `probsSV U [⟨1, gs⟩] ≈ probsTagged U gs` — the generic path on a Fock member equals the fast path
   (|∏ amplitudes|² summed over annotated outputs = convolution of the groups' probabilities);
 * `probabilityBS` (sum over `partition`s) `= get (probsTagged …)`;
-* total probability 1 of a *superposed* member (`probsSV` of several terms) for a unitary matrix —
-  see the end of section 6; for Fock-state and tagged members it is proved (`probsFock_mass_one`,
-  `probsTagged_mass_one`, `mixture_convex_unitary`, `probs_svd_fast_unitary`);
 * a bound on the OUTPUT probabilities for the internal product/amplitude thresholds of
   `list_tensor_product` / `_merge_sv` at a non-zero precision (`innerTP θ`, `memberGenericθ`): what
   one recombination leaves out is characterised exactly (`merge_threshold_exact`,
